@@ -2,7 +2,7 @@
    Proofs/GraphP*.v. *)
 From Coq Require Import ZArith Bool List.
 Import ListNotations.
-From Verif Require Import Model.Val Model.Graph Proofs.GraphPBase Proofs.GraphPDfs Proofs.GraphPTopo Proofs.GraphPDep Proofs.GraphPBfs.
+From Verif Require Import Model.Val Model.Graph Proofs.GraphPBase Proofs.GraphPDfs Proofs.GraphPTopo Proofs.GraphPDep Proofs.GraphPBfs Proofs.GraphPLong.
 Open Scope Z_scope.
 
 (* every graph the constructor can build is well-formed; the constructor never raises *)
@@ -70,3 +70,33 @@ Theorem C17_bfs : forall g, wf g -> simple g -> acyclic g ->
     forall u v, edge g u v -> (index_of u l < index_of v l)%nat.
 Proof. exact bfs_spec. Qed.
 Print Assumptions C17_bfs.
+
+(* get_longest_path with positive weights on a non-empty DAG: a real path (gpath) from a source to a
+   sink whose total weight is the maximum over all paths of the graph *)
+Theorem C17_longest_path : forall g, wf g -> acyclic g -> nodes g <> [] -> forall w, (forall n, 0 < w n) ->
+  exists p, longest_path_w w g = Ok p /\ gpath g p /\
+    parents_of g (hd 0 p) = [] /\ children_of g (last p 0) = [] /\
+    forall q, gpath g q -> sum_w w q <= sum_w w p.
+Proof. exact longest_path_pos. Qed.
+Print Assumptions C17_longest_path.
+(* weights=None (1 for a source, 2 otherwise) *)
+Theorem C17_longest_path_default : forall g, wf g -> acyclic g -> nodes g <> [] ->
+  exists p, get_longest_path g None = Ok p /\ gpath g p /\
+    parents_of g (hd 0 p) = [] /\ children_of g (last p 0) = [] /\
+    forall q, gpath g q -> sum_w (default_weight g) q <= sum_w (default_weight g) p.
+Proof. exact longest_path_default. Qed.
+Print Assumptions C17_longest_path_default.
+(* non-negative weights (probability-0 jobs weigh 0): still a real path of maximum weight *)
+Theorem C17_longest_path_nonneg : forall g, wf g -> acyclic g -> nodes g <> [] -> forall w, (forall n, 0 <= w n) ->
+  exists p, longest_path_w w g = Ok p /\ gpath g p /\ forall q, gpath g q -> sum_w w q <= sum_w w p.
+Proof. exact longest_path_max. Qed.
+Print Assumptions C17_longest_path_nonneg.
+(* the critical-path runtime (weights summed over the longest path) is the maximum path weight *)
+Theorem C17_critical_path : forall g, wf g -> acyclic g -> nodes g <> [] -> forall w, (forall n, 0 <= w n) ->
+  exists z, critical_path w g = Ok z /\ (exists p, gpath g p /\ sum_w w p = z) /\
+            forall q, gpath g q -> sum_w w q <= z.
+Proof. exact critical_path_max. Qed.
+Print Assumptions C17_critical_path.
+Theorem C17_longest_path_cyclic : forall g w, wf g -> cyclic g -> longest_path_w w g = Err E_RUNTIME.
+Proof. exact longest_path_cyclic. Qed.
+Print Assumptions C17_longest_path_cyclic.
